@@ -17,7 +17,7 @@ ASSUMPTIONS = [
     "generators have distinct priorities per path (ties are not specified)",
     "the device file differ is annet.diff.UnifiedFileDiffer (the shipped default implementation), PC hardware, software string without Cumulus/SONiC",
 ]
-FLOORS = {"quick": {"listing_orders": 3000, "jobs_parsed": 3000, "shared_paths": 500, "forced_runs": 500, "diffs_checked": 1500, "cases_with_unsupported_generators": 400, "safe_mode_jobs": 2000, "safe_mode_jobs_with_empty_safe_set": 200, "cases_with_multi_line_files": 800, "cases_with_a_device_file_holding_the_same_lines_in_another_order": 300, "cases_with_instance_level_priorities": 800, "generators_without_a_reload_command": 500},
+FLOORS = {"quick": {"listing_orders": 3000, "jobs_parsed": 3000, "shared_paths": 500, "forced_runs": 500, "diffs_checked": 1500, "cases_with_unsupported_generators": 400, "safe_mode_jobs": 2000, "safe_mode_jobs_with_empty_safe_set": 200, "cases_with_multi_line_files": 800, "cases_with_a_device_file_holding_the_same_lines_in_another_order": 300, "cases_with_instance_level_priorities": 800, "generators_without_a_reload_command": 500, "jobs_with_real_deploy_options": 3000, "generators_without_a_path_for_the_device": 300},
           "thorough": {"listing_orders": 120000, "jobs_parsed": 120000, "shared_paths": 20000, "forced_runs": 20000, "diffs_checked": 60000, "cases_with_unsupported_generators": 15000, "safe_mode_jobs": 80000, "safe_mode_jobs_with_empty_safe_set": 8000}}
 PATHS = ["/etc/a.conf", "/etc/b/b.conf", "/etc/c"]
 KNOWN_NL = "C19/upload-decision-blind-to-trailing-newline"
@@ -64,7 +64,8 @@ def make_entire(name, path, prio, output, reload, safe, unsupported=False, prio_
         if unsupported:
             raise NotSupportedDevice("not for this device")
         return _o
-    ns = {"path": lambda self, device, _p=path: _p, "run": run, "is_safe": lambda self, device, _s=safe: _s, "TAGS": []}
+    # (a generator may also say "not for this device" by giving no path)
+    ns = {"path": lambda self, device, _p=(None if unsupported == "path" else path): _p, "run": run, "is_safe": lambda self, device, _s=safe: _s, "TAGS": []}
     if reload == "<none>":
         ns["reload"] = lambda self, device: None
     elif reload is not None:
@@ -98,6 +99,23 @@ def gen_case(rng):
 RICH = ["nameserver 1.1.1.1\nnameserver 8.8.8.8\n", "a\nb\nc\n", "permit x\ndeny y\npermit z\ndeny y\n", "k = 1\nk = 2", "one\n\ntwo\n"]
 
 
+def deploy_args(acc, mode, acl_safe=False):
+    """the options object `annet deploy` builds (cli_args.DeployOptions); a bare namespace only if it cannot be built here"""
+    from annet import cli_args
+    try:
+        from annet.storage import Query
+
+        class _Q(Query):
+            @classmethod
+            def new(cls, query, hosts_range=None):
+                return cls()
+        a = cli_args.DeployOptions(query=_Q(), entire_reload=mode, acl_safe=acl_safe)
+        acc.count("jobs_with_real_deploy_options")
+        return a
+    except Exception:
+        return types.SimpleNamespace(acl_safe=acl_safe, entire_reload=mode)
+
+
 def rl(r):
     return "" if r in (None, "<none>") else r
 
@@ -117,7 +135,12 @@ def check_case(seed, acc, unsupported=False, perm=False, inst=False):
         # some generators do not support this device (their run() says so): they neither produce nor shadow anything
         for g in gens_spec:
             g["unsupported"] = rng.random() < 0.4
+        urng = random.Random(seed ^ 0x0FF)
+        for g in gens_spec:
+            if g["unsupported"] and urng.random() < 0.5:
+                g["unsupported"] = "path"
         acc.count("cases_with_unsupported_generators")
+        acc.count("generators_without_a_path_for_the_device", sum(1 for g in gens_spec if g["unsupported"] == "path"))
     if perm:
         # multi-line files; the device often holds the same lines in another order, one line repeated, or one line changed in place
         prng = random.Random(seed ^ 0x9E37)
@@ -196,7 +219,7 @@ def check_case(seed, acc, unsupported=False, perm=False, inst=False):
     AD.get_deployer = lambda: _Driver()
     try:
         for mode in (cli_args.EntireReloadFlag.yes, cli_args.EntireReloadFlag.no, cli_args.EntireReloadFlag.force):
-            job = api.PCDeployerJob(dev, types.SimpleNamespace(acl_safe=False, entire_reload=mode))
+            job = api.PCDeployerJob(dev, deploy_args(acc, mode) if seed % 2 else types.SimpleNamespace(acl_safe=False, entire_reload=mode))
             try:
                 job.parse_result(OldNewResult(device=dev, old_files=dict(old), new_files=dict(first_new)))
             except Exception as e:
@@ -244,7 +267,7 @@ def check_case(seed, acc, unsupported=False, perm=False, inst=False):
                     return
         # --acl-safe: only the files whose winning generator is marked safe are considered at all (possibly none)
         safe_new = {p: (g["output"], rl(g["reload"])) for p, g in exp.items() if g["safe"]}
-        job = api.PCDeployerJob(dev, types.SimpleNamespace(acl_safe=True, entire_reload=cli_args.EntireReloadFlag.yes))
+        job = api.PCDeployerJob(dev, deploy_args(acc, cli_args.EntireReloadFlag.yes, True) if seed % 2 else types.SimpleNamespace(acl_safe=True, entire_reload=cli_args.EntireReloadFlag.yes))
         try:
             job.parse_result(OldNewResult(device=dev, old_files=dict(old), new_files=dict(first_new), safe_new_files=dict(safe_new)))
         except Exception as e:
